@@ -612,8 +612,8 @@ def run(ck):
               ({"cls": "ExplicitInput", "method": "get_fraction_along", "mode": "set", "attrs": {"target": V("pop[3]")}},
                ("float", Fraction(1, 2)), "ExplicitInput.get_fraction_along")]
     focus = [t for t in tab if (t[0], t[1]) in set(map(tuple, failing_pairs))]
-    cases = fixed + gen_acc_cases(rng, ck.n(2500, 30000), tab) + (gen_acc_cases(rng, 600, focus) if focus else [])
-    ndocs = ck.n(60, 500)
+    cases = fixed + gen_acc_cases(rng, ck.n(2500, 80000), tab) + (gen_acc_cases(rng, 600, focus) if focus else [])
+    ndocs = ck.n(60, 1500)
     docs = []
     for i in range(ndocs):
         nets = [gen_network(rng, "net%d" % j, big=(i % 7 == 0), xml=(i % 3 == 0)) for j in range(rng.choice([1, 1, 1, 2]))]
